@@ -493,7 +493,12 @@ def runPredicates (sc : Scn) (fx : Facts) (evs : List Ev) : List (String × Opti
            then some s!"matching_gap:{(fx.gaps.headD default).2}:listed_although_table-derivable"
            else some s!"listed_argument_is_derivable")
         else if sortL inputs ≠ sortL fx.supplied then some s!"inputs_{sortL inputs}_expected_{sortL fx.supplied}"
-        else if !fx.convs.all (fun f => convs.contains f.id ∨ convs.contains f.key) then some "a_supplied_converter_is_missing_from_the_report"
+        else if !fx.convs.all (fun f =>
+            -- a converter handed over as a raw function is wrapped in a fresh object: only its Go type (key) is
+            -- observable; so count per key: at least as many listed as supplied
+            let keyOf := fun (i : Nat) => ((sc.fn i).map (·.key)).getD i
+            (convs.filter (fun i => keyOf i == f.key)).length ≥ (fx.convs.filter (fun g => g.key == f.key)).length) then
+          some "a_supplied_converter_is_missing_from_the_report"
         else if (kv rest "mentions").getD "" ≠ "true" then some "message_does_not_mention_a_missing_argument"
         else none
       | _ => some s!"hopeless_parameter_but_{outcomeClass ires}"
